@@ -7,7 +7,7 @@ log = {}
 p = os.path.join(V, "work", "allseeds.log")
 if os.path.exists(p):
     for l in open(p):
-        m = re.match(r"(C\d\d-m\d) (.*)", l.strip())
+        m = re.match(r"(C\d\d-m\d+) (.*)", l.strip())
         if m:
             log[m.group(1)] = m.group(2)
 rows = ["| seed | change (one line) | result of `./check` with it applied |", "|---|---|---|"]
@@ -16,6 +16,8 @@ for d in sorted(glob.glob(os.path.join(V, "seeded", "C*-m*"))):
     mp = os.path.join(d, "meta.json")
     meta = json.load(open(mp))
     title = meta.get("needs_to_manifest", "").split("##")[0].strip().lstrip("# ").strip()
+    title = re.sub(r"^copy into .*?\s\./\S+/?\s*", "", title)          # (round 6 notes begin with the copy-and-run line)
+    title = re.sub(r"^#+\s*", "", title)
     title = re.sub(r"^C\d\d\s*/\s*(m|mutation)\s*\d\s*[—-]\s*", "", title)
     title = re.sub(r"^C\d\d mutation \d\s*[—-]\s*", "", title).split(" **")[0].strip()[:150]
     res = log.get(sid, "")
